@@ -40,7 +40,7 @@ pub fn expected_steps_ordered<G: AffineRepr>(prog: &Program, commitments: &[G], 
     let mut tcount = 0u64;
     for op in &prog.p1 {
         match op {
-            Op::C | Op::CD => {
+            Op::C | Op::CD | Op::C0 => {
                 s.push(point_step(&format!("V[{}]", vj), &commitments[vj]));
                 vj += 1;
             }
